@@ -174,3 +174,6 @@ ax("wf-rw-td-values-req", L.FA([_t, _i], z3.Implies(z3.And(wf_rw(_t), TY.kind(_t
                                                     _ty(L.nth(L.dict_values(TY.td_req(_t)), _i))), [(wf_rw(_t), L.nth(L.dict_values(TY.td_req(_t)), _i))]))
 ax("wf-rw-td-values-opt", L.FA([_t, _i], z3.Implies(z3.And(wf_rw(_t), TY.kind(_t) == TY.K["TD"], 0 <= _i, _i < L.len_(TY.td_opt(_t))),
                                                     _ty(L.nth(L.dict_values(TY.td_opt(_t)), _i))), [(wf_rw(_t), L.nth(L.dict_values(TY.td_opt(_t)), _i))]))
+
+ax("wf-rw-args-not-none", L.FA([_t, _i], z3.Implies(z3.And(wf_rw(_t), 0 <= _i, _i < L.len_(TY.args(_t))), L.nth(TY.args(_t), _i) != L.NONE),
+                              [(wf_rw(_t), L.nth(TY.args(_t), _i))]))
